@@ -25,4 +25,15 @@ META = {
         "technique": "Coq proof over Q (field/lra, list induction) + raw-tape replay and threshold bisection against the real code",
         "design_ref": "DESIGN.md §3 C08",
     },
+    "C12": {
+        "text": "Coq theorems for all initial cutoffs and all runs (lists of operator counts of any length): the growth rule never shrinks the cutoff and always "
+                "leaves a free slot plus a margin of n/2; the model time steps of both samplers apply exactly that rule to the count the update leaves; "
+                "a diagonal update can never leave more operators than slots. The model time steps are tied to the code by replaying every public call "
+                "(timestep, single_diagonal_step, single_cluster_step; Ising and generic sampler; initial cutoffs from 1) on the raw RNG words and comparing "
+                "operator string, state and reported cutoff exactly.",
+        "note": "Trusted: Coq kernel + vm_compute; transcription of the samplers in Model/Steps.v (validated by whole-call tape replay); "
+                "an oracle checks monotonicity and headroom directly on get_cutoff/get_n after every call.",
+        "technique": "Coq proof (nat arithmetic, induction over runs, support lemmas for the probabilistic programs) + whole-call raw-tape replay",
+        "design_ref": "DESIGN.md §3 C12",
+    },
 }
